@@ -37,6 +37,16 @@ class PinvRegistry(object):
         n = m.shape[0]
         return Arr((n, n), [Poly.sym('%s_%d_%d' % (tag, a, b)) for a in range(n) for b in range(n)])
 
+    def lstsq_hook(self, models, a, b, *args, **kw):
+        """linalg.lstsq(A, b) for a square (assumed invertible) A: x = inv(A) b with inv(A) kept symbolic."""
+        a = models.np_asarray(a)
+        b = models.np_asarray(b)
+        if a.ndim != 2 or a.shape[0] != a.shape[1]:
+            raise AnalysisError('lstsq of a non square system %s' % (a.shape,))
+        W = self.hook(models, a)
+        x = models.np_dot(W, b)
+        return (x, None, a.shape[0], None)
+
     def split(self, poly):
         """poly -> ({(tag, a): [g_0 .. g_{n-1}]}, rest) where poly = rest + sum_m W[tag,a,m] * g_m.
         Raises if a term is not linear in the W atoms."""
